@@ -537,7 +537,7 @@ pub fn run(o: &mut Out, tier: &str, seed: u64) {
     }
     neg0.clear(); sc_special.clear();
     o.notes.push("nontrivial rule: every arithmetic / text / consensus op on accepted keys; acceptance cases from the enumerated families (non-canonical y, negative zero, small order, boundary, valid, bad length) and random strings that are accepted".into());
-    o.notes.push("operators: POINT arithmetic is a library-vs-reference comparison — the model side (Model/KeyOps) is its own only in the operand path (from_slice, permissive point() of the stored bytes, PANIC) and calls the same Ed.add/Ed.smul/Ed.encodePt as the spec side (strict decoding + reference group law); SCALAR arithmetic: model = dalek's Scalar52 add / Montgomery mul transcribed on integers, spec = (x op y) mod l; every key-valued result is re-parsed with from_slice (closure); all four Add forms of PrivateKey, Mul<u8>, TryFrom<[u8;32]>, Debug are executed".into());
+    o.notes.push("operators: model side (Model/KeyOps) = from_slice, permissive point() of the stored bytes (PANIC), then for + / - dalek's Niels-form addition transcribed separately (dalekAdd / dalekSub) against the spec side's strict decoding + Ed.add / Ed.sub; for scalar multiplication, from_private_key and the final compression the model calls the same Ed.smul / Ed.encodePt as the spec side, i.e. there the comparison is library-vs-reference only; SCALAR arithmetic: model = dalek's Scalar52 add / Montgomery mul transcribed on integers, spec = (x op y) mod l; every key-valued result is re-parsed with from_slice (closure); all four Add forms of PrivateKey, Mul<u8>, TryFrom<[u8;32]>, Debug are executed".into());
     o.notes.push("serde.* stats: a PublicKey built by the derived Deserialize is NOT validated; the stats count, per family, whether such a key is stored and what `k + k` then does (model Keys.keyAdd agrees op by op)".into());
     o.notes.push("byte-pattern families (pkpat.*): [d0>=ed, ff x29, d30, 7f|ff] for all d0 and a sweep of d30 (thorough: all), all-ff with one byte off, y in [2^255-256, p), runs of ff / 00 from byte i to j over a random background (thorough: all 528 pairs); acceptance decided by the Lean reference, in Rust by dalek decompress+compress; accepted patterns also go through the three consensus entry points; wire.*: deserialize / deserialize_partial / consensus_decode(&[u8]) on the same bytes, byte-comparison oracle for secret keys (>= l refused by all three); arith.sub_small_order: P-Q, Q-P, P+Q for Q in the 8 small-order points, each operand form compared separately with dalek".into());
     o.notes.push("enumerated exhaustively: the 38 encodings with y in [p, 2^255); both negative-zero encodings; the 8 small-order points and their sign flips; scalars around l and powers of two, every top byte over l and l-1".into());
